@@ -106,6 +106,34 @@ pub fn minimise(f: &Failure, own: PropMask) -> Failure {
             return best;
         }
     }
+    // cut the prefix: restart from the printed position at the latest start of turn that still fails
+    {
+        let mut ctx = Ctx::new(own);
+        ctx.record_turn_starts = true;
+        let mut eq = EqTable::default();
+        let mut src = ReplaySource { ops: best.ops.clone(), pos: 0 };
+        let mut trace = vec![];
+        let _ = guarded_execute(&mut ctx, &mut eq, &best.start, &mut src, &mut trace, 0);
+        let mut cuts: Vec<(usize, String)> = ctx.turn_starts.into_iter().filter(|(i, _)| *i > 0 && *i < best.ops.len()).collect();
+        cuts.reverse();
+        // latest first; at most 40 candidates, thinning out towards the beginning
+        let mut tried = 0;
+        let mut k = 0usize;
+        while k < cuts.len() && tried < 40 {
+            let (i, diag) = &cuts[k];
+            let cand_start = Start::Diagram(diag.clone());
+            let cand_ops: Vec<String> = best.ops[*i..].to_vec();
+            tried += 1;
+            if let Some(g) = try_candidate(&cand_start, &cand_ops, &mut budget) {
+                best.start = cand_start;
+                best.ops = g.ops;
+                best.op_index = g.op_index;
+                best.detail = g.detail;
+                break;
+            }
+            k += 1 + tried / 8;
+        }
+    }
     // ddmin on ops
     let mut chunk = (best.ops.len() / 2).max(1);
     loop {
